@@ -47,6 +47,7 @@ type TreeOpts struct {
 	ReuseTxs    bool // place transactions of other branches again where they still fit
 	Rivals      bool // one case in three: slow main branch + shorter, faster (heavier) rival
 	ForceRival  bool // always that shape
+	Senders     int  // number of sender keys transactions are drawn from (0 = the default four)
 }
 
 func (t *Tree) add(parent *TNode, b *Built, branch int, kinds []string) *TNode {
@@ -210,7 +211,11 @@ func DrawTree(t *rapid.T, nc NamedConfig, o TreeOpts) *Tree {
 						return nil
 					}
 					cnt++
-					tx, kind := DrawTx(t, TxCtx{Config: nc.Config, Num: h.Number, State: st, GasLeft: gasLeft, Kinds: o.Kinds})
+					ctx := TxCtx{Config: nc.Config, Num: h.Number, State: st, GasLeft: gasLeft, Kinds: o.Kinds}
+					if o.Senders > 0 {
+						ctx.Keys = Keys[:o.Senders]
+					}
+					tx, kind := DrawTx(t, ctx)
 					if tx != nil {
 						kinds = append(kinds, kind)
 						tr.HasTxs = true
